@@ -1,4 +1,5 @@
 // C20: keyframe animations round-trip with frame order preserved.
+#include <algorithm>
 #include <cmath>
 
 #include "common/canon.h"
@@ -86,7 +87,16 @@ int main(int argc, char **argv) {
     EncoderOptions opt = EncoderOptions::CreateDefaultOptions();
     int speed = -1;
     if (r.below(4) != 0) { speed = r.below(11); opt.SetSpeed(speed, speed); }
-    for (auto &t : tracks) if (t.qbits > 0) opt.SetAttributeInt(t.id, "quantization_bits", t.qbits);
+    {
+      // The per-track options are applied in a random order (ascending ids is only one of the orders a caller may use).
+      std::vector<int> order(tracks.size());
+      for (size_t i = 0; i < order.size(); ++i) order[i] = static_cast<int>(i);
+      const int order_mode = static_cast<int>(r.below(3));
+      if (order_mode == 1) std::reverse(order.begin(), order.end());
+      else if (order_mode == 2) for (size_t i = order.size(); i > 1; --i) std::swap(order[i - 1], order[r.below(i)]);
+      for (int i : order) if (tracks[i].qbits > 0) opt.SetAttributeInt(tracks[i].id, "quantization_bits", tracks[i].qbits);
+      rep.count(std::string("option_order/") + (order_mode == 0 ? "ascending" : order_mode == 1 ? "descending" : "shuffled"));
+    }
     if (r.below(4) == 0) opt.SetGlobalBool("use_built_in_attribute_compression", r.below(2) != 0);
     std::string desc = "frames=" + std::to_string(n) + " tracks=" + std::to_string(ntracks) + " ts_first=" + std::to_string(ts_first) + " speed=" + std::to_string(speed) + " [";
     for (auto &t : tracks) desc += "dt" + std::to_string(t.dt) + "x" + std::to_string(t.nc) + "q" + std::to_string(t.qbits) + " ";
